@@ -113,3 +113,13 @@ theorem C18_any_retry_count (r : Nat) (f : Q α) (w : Net) (hf : ∀ w, (f w).1 
 example : new (some ⟨0, 1⟩) none (some ⟨18446744073709551615, 0⟩) 18446744073709551615
     = .ok ⟨some ⟨18446744073709551615, 0⟩, some ⟨0, 1⟩, none, 18446744073709551615⟩ := by decide
 example : new (some ⟨0, 0⟩) none none 0 = .err .invalidInput := by decide
+
+/-- What the sockets and the retry loops are handed: the helpers return the read, the write and the connect
+duration and the retry count of the settings, each under its own name, and the defaults (4 s each, no retry)
+when there are no settings. -/
+theorem C18_effective_timeouts (t : Timeout) :
+    readAndWriteOrDefaults (some t) = (t.read, t.write) ∧ connectOrDefault (some t) = t.connect
+    ∧ retriesOrDefault (some t) = t.retries
+    ∧ readAndWriteOrDefaults none = (some ⟨4, 0⟩, some ⟨4, 0⟩) ∧ connectOrDefault none = some ⟨4, 0⟩
+    ∧ retriesOrDefault none = 0 :=
+  ⟨rfl, rfl, rfl, rfl, rfl, rfl⟩
